@@ -592,9 +592,14 @@ func c08FirstUse(r *Result, seed int64, di int) {
 	sqlDB.SetMaxOpenConns(1) // one connection: the goroutines race on the schema cache, not on SQLite's table locks
 	g := 2 + rng.Intn(3)
 	ops := make([]string, g)
+	delay := make([]time.Duration, g)
 	for i := range ops {
 		ops[i] = []string{"find", "find", "count", "pluck", "first", "update", "delete"}[rng.Intn(7)]
+		// arrival: together with the first goroutine (both miss the cache and parse: the LoadOrStore collision path) or a
+		// little later (the cache already holds the schema the first one is still completing: the Load path)
+		delay[i] = []time.Duration{0, 0, 50, 150, 400, 1000}[rng.Intn(6)] * time.Microsecond
 	}
+	delay[0] = 0
 	c := c08FirstUseCase{seed, d.Name, ops}
 	r.Case("firstuse", fmt.Sprint(d.Name, ops), true)
 	r.H("firstuse.declaration", d.Name)
@@ -611,8 +616,8 @@ func c08FirstUse(r *Result, seed int64, di int) {
 		go func(i int) {
 			defer wg.Done()
 			<-start
-			if i > 0 {
-				time.Sleep(time.Duration(i) * 300 * time.Microsecond) // staggered: later goroutines arrive while the first one parses
+			if delay[i] > 0 {
+				time.Sleep(delay[i])
 			}
 			h := db.Session(&gorm.Session{})
 			switch ops[i] {
